@@ -287,6 +287,26 @@ pub fn run(cfg: &J) -> J {
             }
         }
     }
+    // long collections, in particular of values that print as () or as an empty token (state accumulated per element)
+    let mut n_long = 0u64;
+    {
+        let mut long_case = |ti: usize, x: J, bad: &mut Vec<J>| {
+            n_long += 1;
+            let o = rt_idx(ti, &x);
+            for w in o["bad"].as_array().unwrap() {
+                bad.push(json!({"rule":"roundtrip","why":w,"ti":ti,"ty":FAMILY[ti],"x":x}));
+            }
+        };
+        for n in [130usize, 300] {
+            long_case(25, (0..n).map(|i| if i % 3 == 0 { String::new() } else { format!("s\u{0}{}", i) }).collect::<Vec<String>>().to_abs(), &mut bad);
+            long_case(26, (0..n).map(|i| if i % 5 == 4 { Some(i as i16) } else { None }).collect::<Vec<Option<i16>>>().to_abs(), &mut bad);
+            long_case(27, (0..n).map(|i| if i % 4 == 3 { vec![1u8, 2] } else { Vec::new() }).collect::<Vec<Vec<u8>>>().to_abs(), &mut bad);
+            long_case(28, (0..n as u32).collect::<BTreeSet<u32>>().to_abs(), &mut bad);
+            long_case(35, (0..n as u32).map(|i| (format!("k{}", i), i)).collect::<BTreeMap<String, u32>>().to_abs(), &mut bad);
+            long_case(36, (0..n as i64).map(|i| (i - 100, i % 2 == 0)).collect::<BTreeMap<i64, bool>>().to_abs(), &mut bad);
+            long_case(37, (0..n as u32).filter_map(|i| char::from_u32(0x4e00 + i)).map(|c| (c, None)).collect::<BTreeMap<char, Option<u8>>>().to_abs(), &mut bad);
+        }
+    }
     // hostile values into every type: never a panic, only data errors, accepted values survive their own round trip
     let mut n_hostile = 0u64;
     if cfg["hostile"].as_bool().unwrap_or(true) {
@@ -303,7 +323,7 @@ pub fn run(cfg: &J) -> J {
         }
     }
     let _ = (BTreeMap::<u8, u8>::new(), BTreeSet::<u8>::new());
-    json!({"bad": bad, "trace": trace, "rt": n_rt, "alt": n_alt, "any": n_any, "random": n_rand, "hostile": n_hostile, "types": FAMILY.len()})
+    json!({"bad": bad, "trace": trace, "rt": n_rt, "alt": n_alt, "any": n_any, "random": n_rand, "hostile": n_hostile, "long": n_long, "types": FAMILY.len()})
 }
 
 pub fn replay_case(case: &J) -> J {
